@@ -1,4 +1,4 @@
-"""C04 -- inline: per-call-site independence and the closed assignment-operator table (R04.1-R04.2)."""
+"""C04 -- inline: per-call-site independence and the closed assignment-operator table (R04.1-R04.8)."""
 from __future__ import annotations
 
 import ast
@@ -21,6 +21,7 @@ EXPLANATION = (
     "values with exactly posonlyargs + args.  R04.4 (=R07.11): the import merger decides 'already imported' on (name, alias) pairs.  R04.5: the from-import of the inlined name is stripped only under the caller's `remove` flag.  R04.6: the offsets that cut the inlined assignment out come from a line table of the substituted text.  The text of the inlined code is not decided."
     ' R04.6: the offsets that cut the inlined assignment out come from a line table of the substituted text.'
 )
+EXPLANATION += ' R04.8: the whole-line rewrite of an inlined call is refused for a second call in the same logical line.'
 ASSUMPTIONS = ["alias tracking is flow-insensitive (x = self.attr makes x an alias for the whole method)",
                "dict()/list()/set()/.copy()/sorted()/slicing create copies"]
 
@@ -73,7 +74,7 @@ def classifier_table_rule(ctx, res, rule: str, fq: str) -> None:
                 function=f.qualname, oracle=sorted(oracle))
 
 
-def check(ctx, res) -> None:
+def _check_body(ctx, res) -> None:
     idx = ctx.idx
     gens = [c for c in idx.classes.values() if c.unit.modname == "rope.refactor.inline"
             and "get_definition" in c.methods and "__init__" in c.methods]
@@ -221,3 +222,37 @@ def check(ctx, res) -> None:
 
     # ---- R04.7 which imports are added is never decided on the module's text lines
     common.import_presence_rule(ctx, res, "R04.7")
+
+
+def _one_rewrite_per_line_rule(ctx, res) -> None:
+    """R04.8: an inlined call is replaced together with its whole logical line: the handler emits the definition's body and a
+    copy of the line, built from the ORIGINAL text, in which this one call is replaced.  Two calls in the line
+    (`print(f(1) + f(2))`, `f(f(2))`, `f(1); f(2)`) give two copies of the statement, each still holding the other call --
+    and with remove=True no definition.  The handler therefore records the lines it has rewritten and refuses a second
+    rewrite of the same line: before the whole-line `add_change` there is a membership test on a record (an attribute of
+    the handler) whose true edge only raises a rope error, and the line is added to that record."""
+    idx = ctx.idx
+    f = idx.need_func("rope.refactor.inline._InlineFunctionCallsForModuleHandle.occurred_outside_skip")
+    cfg = CFG(f.node)
+    adds = [nd for nd in cfg.nodes if nd.kind == "stmt" and nd.ast is not None and any(call_name(c) == "add_change" for c in calls_in(nd.ast))]
+    if not adds:
+        raise AnalysisError("anchor=occurred_outside_skip: no add_change")
+    records = {c.func.value.attr for c in calls_in(f.node) if isinstance(c.func, ast.Attribute) and c.func.attr == "add" and is_self_attr(c.func.value)}
+    refusing = None
+    for t in cfg.nodes:
+        if t.kind == "test" and isinstance(t.ast, ast.Compare) and len(t.ast.ops) == 1 and isinstance(t.ast.ops[0], ast.In) \
+                and is_self_attr(t.ast.comparators[0]) and t.ast.comparators[0].attr in records:
+            for b, lab in cfg.succ[t.id]:
+                if lab == "true" and cfg.exit.id not in cfg.reachable(b):
+                    refusing = t
+    ok = refusing is not None and all(nd.id in cfg.reachable(refusing.id) for nd in adds)
+    res.add("R04.8", "occurred_outside_skip|one-rewrite-per-logical-line", ok, f"{f.unit.rel}:{adds[0].lineno}",
+            "a second call in a logical line that was already rewritten is refused" if ok else
+            "every call of the inlined function replaces its whole logical line with text built from the original line, and nothing records which lines were "
+            "already rewritten: for `print(f(1) + f(2))` the statement is emitted twice, each copy still calling f -- with remove=True the definition is gone "
+            "(NameError), without it the statement runs twice", function=f.qualname)
+
+
+def check(ctx, res) -> None:
+    _check_body(ctx, res)
+    _one_rewrite_per_line_rule(ctx, res)
